@@ -532,6 +532,121 @@ func checkC12(p *core.Program, r *core.Report) {
 		}
 	}
 	r.Floor(R6, 2)
+
+	// R7: one FIFO between acceptance and the wire (rule shared with C06.R3)
+	const R7 = "C12.R7 one-queue-one-consumer"
+	r.Rule(R7, "the outgoing queue has exactly one consumer function, started once, producers are serialised by one mutex and the consumer writes the value it dequeued: a second consumer (e.g. a close routine that drains the queue itself) puts message k+1 on the wire before k (rule shared with C06.R3)")
+	checkOutgoingQueue(p, r, R7)
+
+	// R8: no mutex of the connection is left locked when a function returns
+	const R8 = "C12.R8 no-lock-left-held"
+	r.Rule(R8, "in package ws no function returns on some path with a mutex it acquired still locked (unless a deferred unlock covers it): a writer that leaves with the enqueue mutex held makes every later write block forever instead of returning the closed error")
+	checkLockLeaks(p, r, R8, a.fns)
+	r.Floor(R8, 3)
+}
+
+// checkLockLeaks: may-lockset (union over paths) at every return of every function must be covered by deferred unlocks.
+func checkLockLeaks(p *core.Program, r *core.Report, rule string, fns []*ssa.Function) {
+	for _, fn := range fns {
+		if len(fn.Blocks) == 0 {
+			continue
+		}
+		locks := false
+		core.EachInstr(fn, func(in ssa.Instruction) {
+			if _, op, _ := core.MutexOp(in); op > 0 {
+				if _, isDefer := in.(*ssa.Defer); !isDefer {
+					locks = true
+				}
+			}
+		})
+		if !locks {
+			continue
+		}
+		// forward may-analysis
+		type set = map[string]bool
+		in := map[*ssa.BasicBlock]set{fn.Blocks[0]: {}}
+		work := []*ssa.BasicBlock{fn.Blocks[0]}
+		deferred := set{}
+		core.EachInstr(fn, func(i ssa.Instruction) {
+			if d, ok := i.(*ssa.Defer); ok {
+				if id, op, read := core.MutexOp(d); op < 0 {
+					if read {
+						id += "#R"
+					}
+					deferred[id] = true
+				}
+			}
+		})
+		var leakAt ssa.Instruction
+		leaked := ""
+		for len(work) > 0 {
+			b := work[0]
+			work = work[1:]
+			cur := set{}
+			for k := range in[b] {
+				cur[k] = true
+			}
+			for _, i := range b.Instrs {
+				switch i.(type) {
+				case *ssa.Defer, *ssa.Go:
+					continue
+				}
+				if id, op, read := core.MutexOp(i); op != 0 {
+					if read {
+						id += "#R"
+					}
+					if op > 0 {
+						cur[id] = true
+					} else {
+						delete(cur, id)
+					}
+				}
+				if ret, ok := i.(*ssa.Return); ok {
+					for id := range cur {
+						if !deferred[id] && leakAt == nil {
+							leakAt, leaked = ret, id
+						}
+					}
+				}
+			}
+			for _, sblk := range b.Succs {
+				old, seen := in[sblk]
+				changed := !seen
+				if !seen {
+					old = set{}
+					in[sblk] = old
+				}
+				for k := range cur {
+					if !old[k] {
+						old[k] = true
+						changed = true
+					}
+				}
+				if changed {
+					work = append(work, sblk)
+				}
+			}
+		}
+		// a lock wrapper (every return holds the mutex) acquires on behalf of its caller: not a leak
+		if leakAt != nil {
+			must := core.Locksets(fn, core.LockSet{})
+			wrapper := true
+			core.EachInstr(fn, func(i ssa.Instruction) {
+				if _, ok := i.(*ssa.Return); ok && !must[i][leaked] {
+					wrapper = false
+				}
+			})
+			if wrapper {
+				leakAt = nil
+			}
+		}
+		key := "locks released on every return of " + p.FnName(fn)
+		if leakAt != nil {
+			r.Fail(rule, key, p.Pos(leakAt.Pos()), "a path returns with "+leaked+" still locked: every later acquirer of that mutex blocks forever")
+		} else {
+			r.OK(rule, key, p.Pos(fn.Pos()), "every acquired mutex is released (or covered by a deferred unlock) on all returning paths")
+		}
+	}
 }
 
 // selectNilReturnOffArm finds a nil-error return reachable from the select
@@ -780,9 +895,18 @@ func checkC13(p *core.Program, r *core.Report) {
 				r.OK(R2, tn+" "+fnn+" closed-check-between-read-and-deliver", p.Pos(deliver.Pos()), "closed flag re-read after every read")
 			}
 			// report sites in the pump
+			// the report may be made by a helper the pump calls on its error branch (one that always reports)
+			mustRepRP := core.NewMust(p, 2, func(in ssa.Instruction) bool { return core.IsInvokeOf(in, a.mReport) })
+			isRepRP := func(in ssa.Instruction) bool {
+				if core.IsInvokeOf(in, a.mReport) {
+					return true
+				}
+				_, isCall := in.(*ssa.Call)
+				return isCall && mustRepRP.Instr(in)
+			}
 			var reports []ssa.Instruction
 			core.EachInstr(readPump, func(in ssa.Instruction) {
-				if core.IsInvokeOf(in, a.mReport) {
+				if isRepRP(in) {
 					reports = append(reports, in)
 				}
 			})
@@ -810,7 +934,7 @@ func checkC13(p *core.Program, r *core.Report) {
 			}
 			for _, eb := range errBlocks {
 				first := eb.Instrs[0]
-				isRep := func(in ssa.Instruction) bool { return core.IsInvokeOf(in, a.mReport) }
+				isRep := isRepRP
 				startsWithRep := isRep(first)
 				var bad ssa.Instruction
 				if !startsWithRep {
@@ -897,6 +1021,11 @@ func checkC13(p *core.Program, r *core.Report) {
 	r.Floor(R3, 2)
 
 	// ---- R4 ship reaction
+	checkShipReaction(p, r, R4)
+}
+
+// checkShipReaction: the SHIP layer's ReportConnectionError reaches CloseConnection on every path (C13.R4, C03.R8).
+func checkShipReaction(p *core.Program, r *core.Report, R4 string) {
 	rce := p.Method("ship", "ShipConnection", "ReportConnectionError")
 	cc := p.Method("ship", "ShipConnection", "CloseConnection")
 	if rce == nil || cc == nil {
